@@ -8,7 +8,10 @@ headers_check, schema_check, verdict; media_types.parse / expand_status_code sep
 -> triangle with an independent oracle written here (own lookup exact -> NXX -> default, own
 reference resolution, own media type parsing, own OpenAPI -> JSON Schema reading + python-jsonschema):
 oracle vs implementation (false alarm / miss, classified by the Coq region predicates) and
-oracle vs Coq spec_verdict (the specification in the theorems means what the oracle means).
+oracle vs Coq spec_verdict (the specification in the theorems means what the oracle means)
+-> the loaded schema as state: converter.to_json_schema on object schemas vs Model_C04.to_json_schema_obj (result AND the
+caller's schema object after the call), and histories of 2-4 validations on ONE loaded schema: every verdict equals the
+verdict of a freshly loaded schema, the oracle's, and Model_C04.verdict_seq's (theorem C04_verdict_seq).
 """
 from __future__ import annotations
 
@@ -965,6 +968,8 @@ def run(chk: core.Check):
         "JSON parsing and UTF-8 decoding of the body are foreign: the body reaches the model classified as BadUtf8 / NotJson / Json",
         "header names, media types and response keys are ASCII except for a few caseless code points (str.lower/upper modelled on ASCII letters)",
         "status codes 100..599 and keys default / NNN / NXX in the oracle stage; other keys and codes only in the model-vs-implementation stage",
+        "the loaded API schema is the only state a validation may touch that later verdicts read (model: store of object schemas); "
+        "checked per run: schema.raw_schema equals the loaded document after every validation",
     ]
     chk.rule = (
         "documents drawn from one PRNG (VERIF_SEED): OpenAPI 3.0.x (70%) / Swagger 2.0, 1-4 response keys (exact, NXX/nxx, default; in the 'weird' half also "
@@ -972,7 +977,9 @@ def run(chk: core.Check):
         "parameters, upper case; weird: malformed, quoted), schemas with nullable / writeOnly / local $ref / empty, 0-3 headers (inline or $ref, required or not), "
         "produces at both levels for 2.0; 5 responses per document: status steered to exact / wildcard / other, Content-Type steered to documented / other / missing / "
         "malformed / empty, header subsets in 3 casings, 26 bodies (valid, violating, malformed JSON, empty, invalid UTF-8). non-trivial = some check or the oracle reports something; "
-        "distinct by canonical JSON of (document, response)"
+        "distinct by canonical JSON of (document, response). Conversion stage: object schemas of 1-5 string properties, each writeOnly / x-writeOnly (40%), readOnly (10%) or plain, "
+        "required a shuffled subset (sometimes a foreign name, duplicates only for the rewrite comparison), 4 instances each. History stage: such a User schema inline / by $ref / as array "
+        "items / under two properties / nested, 3.0 and 2.0, 2-4 responses validated one after another on one loaded schema (35% repeat an earlier response exactly)"
     )
     chk.proofs(["Common", "C04"])
     rng = chk.rng
